@@ -10,7 +10,7 @@
 (***************************************************************************)
 EXTENDS PFMActions, Json
 
-CONSTANTS Depth, OutDir, ADV_PCT, TIMEOUT_PCT, XI_PCT
+CONSTANTS Depth, OutDir, ADV_PCT, TIMEOUT_PCT, XI_PCT, OFF_PCT
 
 VARIABLES S, sched
 
@@ -25,7 +25,11 @@ Adversarial(T) == LateRecv(T) \cup LastChanceRecv(T) \cup EarlyTimeout(T) \cup S
 Pick(T) ==
     CHOOSE x \in UNION { UNION {
         { IF roll2 <= XI_PCT /\ roll > 50 THEN [a |-> "XImport", dt |-> 1, c |-> PickOne({"A", "B", "C"})]
+          ELSE IF Quiescent(T) /\ T.off # {} THEN PickOne(SendOnActs(T))
           ELSE IF Quiescent(T) THEN PickOne(Journeys)
+          \* sends disabled on a chain that has a retry / a forward pending, enabled again a few steps later
+          ELSE IF T.off # {} /\ roll2 % 3 = 0 THEN PickOne(SendOnActs(T))
+          ELSE IF T.off = {} /\ roll % 100 < OFF_PCT /\ SendOffActs(T) # {} THEN PickOne(SendOffActs(T))
           ELSE IF roll <= ADV_PCT /\ Adversarial(T) # {} THEN PickOne(Adversarial(T))
           ELSE IF roll2 <= TIMEOUT_PCT /\ TimeoutActs(T) # {} THEN PickOne(TimeoutActs(T))
           ELSE IF RecvActs(T) \cup AckActs(T) # {} THEN PickOne(RecvActs(T) \cup AckActs(T))
